@@ -137,8 +137,16 @@ where
         let (tx, rx) =
             mpsc::channel::<StdResult<EventRecord, Self::Error>>(8);
 
-        let mut it =
-            self.iter(reverse).await.expect("to initialize iterator");
+        let mut it = match self.iter(reverse).await {
+            Ok(it) => it,
+            Err(e) => {
+                // Yield the error as the only item in the stream
+                if let Err(e) = tx.send(Err(e)).await {
+                    tracing::error!(error = %e);
+                }
+                return ReceiverStream::new(rx).boxed();
+            }
+        };
         let file_path = self.data.clone();
         tokio::task::spawn(async move {
             while let Some(record) = it.next().await? {
